@@ -28,6 +28,10 @@ def main():
     summary = []
     for sd in seeds:
         meta = json.loads((sd / "meta.json").read_text()) if (sd / "meta.json").exists() else {}
+        if meta.get("obsolete"):
+            summary.append(f"{sd.name}: obsolete ({meta['obsolete'][:80]}...)")
+            print(summary[-1], flush=True)
+            continue
         checks = meta.get("checks") or meta.get("caught_by") or [meta.get("property", sd.name[:3])]
         wt = f"/tmp/seedchk_{sd.name}"
         sh(f"git -C {REPO} worktree remove --force {wt}")
